@@ -4,7 +4,9 @@ Domain : generated methods (Watch, Alarm, Wait, thresholds, timed Pause/Hold, UO
          macros) x input trajectories x cancel/force requests at generated ticks.  A request names the k-th item of the
          *current* run log (pool "all"), the k-th item without end state (pool "pending"), or - for the statement's
          'forced threshold instruction' clause only - the k-th instruction instance that is awaiting its threshold (pool
-         "hidden": the run log does not render such instances, their instance id is taken from the tracking records).
+         "hidden": the run log does not render such instances, their instance id is taken from the tracking records), or
+         the k-th pending item of a line that was already executed before in this run (pool "later": second call of a macro,
+         second round of an Alarm body).  Half of the methods get an extra macro called 2-3 times or an always-true Alarm.
          Requests go through engine.cancel_instruction / engine.force_instruction exactly like
          EngineMessageHandlers.handle_cancelMsg / handle_forceMsg; an exception of the call is the rejection path.
 Oracle :
@@ -26,7 +28,9 @@ Oracle :
      force, Watch         : the Watch is activated within WATCH_TICKS (5) interpreter ticks although nothing else changed
      force, Wait          : the Wait's run-log item is completed within WAIT_TICKS (3) interpreter ticks
      force, hidden threshold instance (accepted): the line has begun within WAIT_TICKS interpreter ticks
-  Offered-but-rejected requests, accepted requests on other kinds (Block, Alarm, Mark ...) and checks made inconclusive by
+  offered and REJECTED: violation `<op>:<kind>:offered:rejected` when the node's live cancellable/forcible property still allows
+     the operation; a stale offer (only the item's recorded flags offer it, the node has moved on) is counted.
+  Stale-offer refusals, accepted requests on other kinds (Block, Alarm, Mark ...) and checks made inconclusive by
   the run itself (enclosing block ended, method error, run paused until the end of the case, Watch inside Alarm/Macro whose
   node is re-used by later invocations) are classified and counted, not judged.
 Signatures: offered path `<op>:<kind>:offered:<symptom>`; not-offered path `<op>:<kind>:not-offered:<pending|concluded>:
@@ -71,7 +75,15 @@ ASSUMPTIONS = [
     "'forced threshold instruction' clause is exercised with instance ids read from the tracking records (pool 'hidden'), only the "
     "accepted case is judged",
     "a Watch inside an Alarm or Macro body is re-visited by later invocations (the node's cancel/force flags are reset); its requests are classified only",
-    "an offered request that is rejected, and accepted requests on kinds the statement does not name (Block, Alarm, Mark, Base, running UOD command forced ...), are counted only",
+    "offered + rejected is a violation (<op>:<kind>:offered:rejected) when the targeted node's live cancellable/forcible property still allows the "
+    "operation (the engine refuses what both its run log and its node state offer); when only the item's recorded flags offer it and the node has "
+    "moved on (stale offer: activated, cancelled or forced since the flags were recorded) the refusal is counted, not judged - the statement fixes what "
+    "accepted requests do and that not-offered requests change nothing; class 'stale-offer:refused:body-ran(counted, not judged)' counts the refused "
+    "Watch cancels after which the body ran",
+    "accepted requests on kinds the statement does not name (Block, Alarm, Mark, Base, running UOD command forced ...) are counted only",
+    "inside Alarm/Macro bodies (node re-used per round/call) a forced Wait / threshold line that does not proceed is inconclusive (the instance can be "
+    "orphaned when the enclosing Watch is re-registered by the next call/round); consequences of the two registered known mechanisms (stale item in a "
+    "repeating scope accepted; forced UOD command cancelled) other than the registered signatures are counted as excluded_known/known-variant classes",
     "methods contain no Stop/Restart and no untimed Pause/Hold; no user control commands are issued",
 ]
 TIERS = {
@@ -91,10 +103,29 @@ EXCLUDE_KNOWN_CONCLUDED_IN_MULTI = False   # the defect is repaired in /repo (6c
 # Watch/Alarm (its interrupt is registered from inside an interrupt); a forced Wait / threshold line continues in the next tick.
 WATCH_TICKS = 5
 WAIT_TICKS = 3
-# Offered + rejected.  A refusal of a request that the run log offers AND the node itself still allows is always a violation
-# (`<op>:<kind>:offered:rejected`).  A *stale* offer (the node has moved on, only the item's recorded flags still offer it) is
-# judged where the refusal has a consequence the statement names - the Watch then runs its body; False = count only.
-JUDGE_STALE_OFFER_CONSEQUENCES = True
+# Known finding (registered): inside an Alarm/Macro body the node of a line is re-used by every round/call, and a request is
+# checked against the node's *live* flags and booked on the record's latest instance, not on the instance it names.  So a request
+# for a stale, not-offered, still pending item of such a line (or of the Alarm itself) is accepted.  The registered signatures are
+# the Watch/applied-to-later-instance ones; with the switch on, the other consequences of the same mechanism (the named item itself
+# becomes forced/cancelled because the round's reset made the node forcible/cancellable again while its body is still running, an
+# Alarm item, a UOD command item) are counted as excluded_known + known-variant:<signature> and not reported.  Lines outside
+# Alarm/Macro bodies are not affected by the switch.
+EXCLUDE_KNOWN_STALE_ITEM_IN_REPEATING_SCOPE = True
+KNOWN_STALE_ITEM_SIGS = ("force:watch:not-offered:pending:accepted:applied-to-later-instance",
+                         "cancel:watch:not-offered:pending:accepted:applied-to-later-instance")
+# Known finding cancel:uod:offered:finalized-late: its further consequence (see the oracle) is counted, not reported.
+EXCLUDE_KNOWN_FORCED_UOD_CANCEL_CONSEQUENCES = True
+# Offered + rejected.  The run log is read immediately before the request and nothing happens in between, so a refusal can not
+# be explained by an offer that changed in the meantime.  Two cases, told apart by the *live* property of the targeted node:
+#  * the run log offers the operation AND the node itself is still cancellable/forcible, but the engine refuses: the engine
+#    contradicts its own live state -> violation `<op>:<kind>:offered:rejected`;
+#  * stale offer: the flags of a run-log item are a snapshot taken when its last state was recorded (the first-visit item of a
+#    Watch/Alarm keeps cancellable=forcible=True for ever, the interrupt item for one tick after activation); the node has moved on
+#    (activated / cancelled / forced) and itself refuses.  The statement's sentences fix what an ACCEPTED request does and that
+#    NOT-offered requests change nothing; a refused cancel was answered with an error, the instruction is not cancelled and its body
+#    running is consistent with them - the stale flag is a run-log accuracy matter.  Counted, not judged (orchestrator decision);
+#    True would report the one consequence the statement names (cancel offered for a Watch, refused, body runs afterwards).
+JUDGE_STALE_OFFER_CONSEQUENCES = False
 SIG_STALE_BODY_RAN = "cancel:watch:offered:rejected:stale-offer:body-ran"
 SIG_CONCLUDED_ANY = "%s:not-offered:concluded-item-%s:%s"
 SIG_CONCLUDED = "%s:not-offered:concluded-item-accepted:runlog-unproducible"
@@ -158,12 +189,27 @@ def _repeat_body(draw):
 
 @st.composite
 def _with_repeats(draw, tree):
-    """own addition to the shared generator's tree: a line that is executed several times in one run - a macro called 2-3
-    times or an Alarm whose condition holds from the start (its body runs round after round) - placed at a drawn position"""
+    """own additions to the shared generator's tree, placed at a drawn position: a line that is executed several times in one
+    run (a macro called 2-3 times, or an Alarm whose condition holds from the start so that its body runs round after round),
+    or a timed Pause and a timed Hold that take effect together"""
     body = tree["body"]
     names = [n["name"] for n in body if n["k"] == "macro"]
-    what = draw(st.sampled_from(["macro", "macro", "alarm"]))
-    if what == "macro" and len(names) < 8:
+    what = draw(st.sampled_from(["macro", "macro", "alarm", "alarm", "pause+hold", "pause+hold"]))
+    if what == "pause+hold":
+        # a timed Pause and a timed Hold in effect at the same time: while paused or on hold the interpreter is not ticked, so
+        # both must reach the engine in the same tick - one from a Watch body, one from the main program.  Measured: with comment
+        # lines in the body and marks in the main program the pairs (1, 1) and (3, 2) of filler counts align; other pairs are
+        # drawn too (they give a Pause and a Hold one after the other).
+        a, b = draw(st.sampled_from([(1, 1), (1, 1), (3, 2), (3, 2), (0, 0), (1, 2), (2, 1), (2, 2), (0, 1), (3, 3)]))
+        first = draw(st.sampled_from(["pause", "hold"]))
+        other = "hold" if first == "pause" else "pause"
+        d1, d2 = draw(st.sampled_from([0.5, 1.0, 1.5])), draw(st.sampled_from([0.5, 1.0, 1.5]))
+        watch = {"k": "watch", "t": None, "cond": {"tag": "In2", "op": "<", "val": 8, "unit": None},
+                 "c": [{"k": "comment", "t": None} for _ in range(a)] + [{"k": first, "t": None, "d": d1}]}
+        seq = [watch] + [{"k": "mark", "t": None} for _ in range(b)] + [{"k": other, "t": None, "d": d2}, {"k": "mark", "t": None}]
+        pos = draw(st.integers(0, min(2, len(body))))
+        tree["body"] = body[:pos] + seq + body[pos:]
+    elif what == "macro" and len(names) < 8:
         name = "M%d" % (len(names) + 1)     # the shared generator names its macros M1, M2 in order
         seq = [{"k": "macro", "t": None, "name": name, "c": draw(_repeat_body())}]
         for _ in range(draw(st.integers(2, 3))):
@@ -190,7 +236,7 @@ def programs(draw, cfg):
     thresholds = draw(st.integers(0, 9)) < 3
     tree = draw(G.program(_cfg(thresholds, cfg["max_top"], cfg["depth"])))
     _retune(draw, tree["body"])
-    if draw(st.integers(0, 9)) < 5:
+    if draw(st.integers(0, 9)) < 6:
         tree = draw(_with_repeats(tree))
     n = draw(st.integers(25, cfg["max_ticks"]))
     traj = draw(G.trajectory(n, max_changes=5))
@@ -442,7 +488,7 @@ def oracle(case, A, B):
                 if rec["op"] == "cancel" and grp == "watch" and line is not None and not prog.repeating(line):
                     ran = _watch_ran(prog, line, A.events[rec["ev_start"]:])
                 if ran and not JUDGE_STALE_OFFER_CONSEQUENCES:
-                    classes.append("excluded_known:%s" % SIG_STALE_BODY_RAN)
+                    classes.append("stale-offer:refused:body-ran(counted, not judged)")
                 elif ran:
                     viol(SIG_STALE_BODY_RAN,
                          "%s (%s) although the run log offered it - the item's flags are stale, the node itself is no longer cancellable - "
@@ -474,6 +520,8 @@ def oracle(case, A, B):
             begun = any(tk["begun"] is not None and line.id in tk["begun"] for tk in ticks)
             if begun:
                 classes.append("checked:force-threshold:begun")
+            elif prog.repeating(line):
+                classes.append("inconclusive:force-threshold:repeating-scope")
             elif why or not complete:
                 classes.append("inconclusive:force-threshold:%s" % (why or "run-ends"))
             else:
@@ -483,7 +531,12 @@ def oracle(case, A, B):
 
         if rec["op"] == "cancel":
             late = [e for e in after if (e[1] == "cmd" and e[3] == iid and e[4] in ("init", "exec")) or (e[1] == "icmd" and e[3] == iid)]
-            if late:
+            if late and EXCLUDE_KNOWN_FORCED_UOD_CANCEL_CONSEQUENCES and grp == "uod" and rec["item"]["f"] and rec["cmd_started"]:
+                # consequence of the known finding cancel:uod:offered:finalized-late (cancel of a *forced* running command: the
+                # exception of tracking.mark_cancelled is swallowed, the request stays in the executing list); when a command of
+                # the same name follows, the instance is finalized by it and the cancelled request starts a fresh instance
+                classes += ["excluded_known:cancel:uod:offered:finalized-late", "known-consequence:forced-uod-cancel:command-restarts"]
+            elif late:
                 e0 = late[0]
                 what = "UOD command %s %s (iteration %s)" % (e0[2], e0[4], e0[6]) if e0[1] == "cmd" else "internal command %s started" % e0[2]
                 viol("cancel:%s:offered:runs-after-cancel" % grp,
@@ -513,7 +566,9 @@ def oracle(case, A, B):
                     classes.append("cancel:uod:not-yet-initialised" if not inited else "cancel:uod:already-finalized")
             elif grp in ("pause", "hold"):
                 running = any(e[1] == "icmd" and e[3] == iid for e in before)
-                if running and rec["status_before"] != "Error":
+                # an error pauses the run (paused flag / System State Paused); that does not touch the hold flag, so a cancelled
+                # Hold is judged under an error pause too, a cancelled Pause is not
+                if running and (rec["status_before"] != "Error" or grp == "hold"):
                     bad = (rec["paused_after"] or rec["state_after"] == "Paused") if grp == "pause" else \
                         (rec["holding_after"] or rec["state_after"] == "Holding")
                     if bad:
@@ -522,6 +577,8 @@ def oracle(case, A, B):
                              % (describe(rec), rec["state_after"], rec["paused_after"], rec["holding_after"]))
                     else:
                         classes.append("checked:cancel:%s:ended-at-once" % grp)
+                        if rec.get("paused_before") and rec.get("holding_before"):
+                            classes.append("checked:cancel:%s:while-paused-and-holding" % grp)
                 else:
                     classes.append("cancel:%s:%s" % (grp, "command-not-started-yet" if not running else "method-error"))
             elif grp == "watch":
@@ -563,6 +620,10 @@ def oracle(case, A, B):
                     classes.append("checked:force:wait:completed")
                     if rec["item"]["progress"] is not None and rec["item"]["progress"] < 0.6:
                         classes.append("checked:force:wait:completed-early")
+                elif prog.repeating(line):
+                    # the instance may have been orphaned: a second call of the macro / a new Alarm round re-registers the
+                    # enclosing Watch and drops the handler that was executing this Wait; its item stays 'started' for ever
+                    classes.append("inconclusive:force:wait:repeating-scope")
                 elif why or not complete:
                     classes.append("inconclusive:force:wait:%s" % (why or "run-ends"))
                 else:
@@ -623,6 +684,12 @@ def oracle(case, A, B):
                     if other_finalized or other_cancelled or (grp in ("pause", "hold") and resumed):
                         sym = "cancels-other-instance-of-same-command"
                 sig = SIG_CONCLUDED_ANY % (rec["op"], acc, sym)
+            line = prog.by_id.get(rec["line"])
+            if (EXCLUDE_KNOWN_STALE_ITEM_IN_REPEATING_SCOPE and rec["accepted"] and rec["status"] == "pending" and line is not None
+                    and prog.repeating(line) and sig not in KNOWN_STALE_ITEM_SIGS):
+                classes += ["excluded_known:%s" % (KNOWN_STALE_ITEM_SIGS[0] if rec["op"] == "force" else KNOWN_STALE_ITEM_SIGS[1]),
+                            "known-variant:stale-item-in-repeating-scope:%s" % sig]
+                break
             viol(sig, "%s although the run log did not offer it; the run then differs from the twin run without the request at %s: %s"
                  % (describe(rec), pa["label"], detail))
             break
